@@ -62,6 +62,20 @@ func genSpec(r *rand.Rand, ver version.Version, big bool) *sxSpec {
 	if r.Intn(3) == 0 {
 		sp.uri += "?q=" + randToken(r, 1+r.Intn(8))
 	}
+	// request URLs beyond the plain grammar: the format carries the URL as bytes, the library must hand back what it wrote -
+	// or refuse to write what its own reader will not take
+	switch r.Intn(16) {
+	case 0:
+		sp.uri = "HTTPS" + sp.uri[5:]
+	case 1:
+		sp.uri += "/caf\u00e9/men\u00fc"
+	case 2:
+		sp.uri += "/a|b{c}"
+	case 3:
+		sp.uri += "#frag"
+	case 4:
+		sp.uri = []string{"http" + sp.uri[5:], "ftp://" + host + "/f", "/relative/path", "", "https://" + host + "/%zz", "https://" + host + ":port/", "//" + host + "/x"}[r.Intn(7)]
+	}
 	sp.vURL = "https://" + host + randPath(r, []int{3, 20, 240, 300}[r.Intn(4)])
 	sp.certURL = "https://cert.example/" + randToken(r, 1+r.Intn(20))
 	if r.Intn(6) == 0 {
@@ -161,6 +175,7 @@ func sxgFull(args []string) error {
 	thorough := len(args) > 0 && args[0] == "thorough"
 	r := rand.New(rand.NewSource(seed()))
 	kcs := []*keyCert{newKeyCert("p256", []string{"example.com"}, 0), newKeyCert("p384", []string{"example.com"}, 300)}
+	kcs = append(kcs, renew(kcs[0], 7)) // the first key again under a renewed certificate
 	n := 40
 	if thorough {
 		n = 400
@@ -170,7 +185,8 @@ func sxgFull(args []string) error {
 		for _, ver := range version.AllVersions {
 			id++
 			sp := genSpec(r, ver, thorough || i%10 == 0)
-			fullEvent(fmt.Sprintf("f%d", id), sp, kcs[id%2], instants(sp))
+			sp.shared = i%2 == 1 // every other round signs through the one long-lived Signer, certificate and key changing under it
+			fullEvent(fmt.Sprintf("f%d", id), sp, kcs[(id+i)%3], instants(sp))
 		}
 	}
 	// boundary grid: URL length 65535/65536/65537, Signature length 16384/16385, header block 524288/524289
